@@ -4,6 +4,8 @@
    level), F the Poisson cdf, both inputs; K lam = fixed_cost * demand_mean.
    rq_cost_def g K lam r n = (K lam + sum_{y=r+1}^{r+n} g y) / n  is the documented cost (5.48). *)
 From SV Require Import Base.Qx Alg.RQ Alg.RQ_proofs Alg.RQTol_proofs Alg.RQTerm_proofs.
+From Coq Require Import Qround.
+From SV Require Import Alg.RQ_witnesses.
 
 (* (1) r_q_cost_poisson (accumulation loop as written) equals the documented sum, also through the guards *)
 Theorem C14_poisson_cost_def g K lam r n : rq_cost_poisson g K lam r n == rq_cost_def g K lam r n.
@@ -151,8 +153,10 @@ Theorem C14_eil_fixed_point se fuel r Qn c : r_q_eil sqrtf ppf n1 h p K lam mu t
   c = h * (r - mu + Qn / 2) + K * lam / Qn + p * lam * n1 r / Qn.
 Proof. exact (eil_fixed_point sqrtf ppf n1 h p K lam mu tol Hh se fuel r Qn c). Qed.
 
+(* eps = residual of fsolve at the call that produced the returned r (only there: a residual bound for EVERY right-hand side, negative
+   ones included, would be met by no non-negative loss function -- found by the vacuity audit) *)
 Theorem C14_lossfn_fixed_point eps se fuel r Qn :
-  (forall rhs x0, - eps <= n1 (solve rhs x0) - rhs <= eps) ->
+  (forall Qp rp, r = solve (h * Qp / (h + p)) rp -> - eps <= n1 r - h * Qp / (h + p) <= eps) ->
   r_q_lossfn sqrtf n2 solve h p K lam tol fuel = Some (r, Qn) ->
   (let X := 2 * (K * lam + (h + p) * n2 r) / h in - se <= sqrtf X * sqrtf X - X <= se) ->
   - (h * se) <= h * (Qn * Qn) - 2 * (K * lam + (h + p) * n2 r) <= h * se /\
@@ -191,6 +195,32 @@ Proof.
   - vm_compute. intros [_ H]. apply H. reflexivity.
 Qed.
 
+(* non-vacuity of the fixed-point theorems on RUNS that return (the loops iterate; sqrt is an inexact rational square root: five Newton
+   steps rounded to 3 decimals): EIL with a positive r and Q; loss-function iteration with the exact root finder of the NON-NEGATIVE loss
+   n1 r = 1/(1+r) (r > -1), whose pointwise residual hypothesis holds with eps = 0 *)
+Definition ex_rnd (y : Q) : Q := Qred (inject_Z (Qfloor (y * 1000)) / 1000).
+Definition ex_sqrt (x : Q) : Q :=
+  let st := fun y => Qred ((y + x / y) / 2) in ex_rnd (st (st (st (st (st (Qred ((1 + x) / 2))))))).
+Definition ex_ppf (a : Q) : Q := ex_rnd (10 * a).
+Definition ex_n1 (r : Q) : Q := ex_rnd (/ (1 + r * r)).
+Definition ex_n2 (r : Q) : Q := ex_rnd (/ (2 + r * r)).
+Definition ex_loss (r : Q) : Q := / (1 + r).
+Definition ex_solve (rhs x0 : Q) : Q := Qred (/ rhs - 1).
+Example C14_fixed_point_runs_nonvacuous :
+  (exists r Qn c, r_q_eil ex_sqrt ex_ppf ex_n1 2 3 4 10 5 (1 # 100) 20 = Some (r, Qn, c) /\ 0 < Qn /\ 0 < r /\
+     (let X := 2 * 10 * (4 + 3 * ex_n1 r) / 2 in - (1 # 50) <= ex_sqrt X * ex_sqrt X - X <= 1 # 50)) /\
+  (exists r Qn, r_q_lossfn ex_sqrt ex_n2 ex_solve 2 3 4 10 (1 # 100) 20 = Some (r, Qn) /\ 0 < Qn /\ 0 < ex_loss r /\
+     (forall Qp rp, r = ex_solve (2 * Qp / (2 + 3)) rp -> - 0 <= ex_loss r - 2 * Qp / (2 + 3) <= 0) /\
+     (let X := 2 * (4 * 10 + (2 + 3) * ex_n2 r) / 2 in - (1 # 50) <= ex_sqrt X * ex_sqrt X - X <= 1 # 50)).
+Proof.
+  split.
+  - eexists _, _, _. split; [vm_compute; reflexivity|]. vm_compute. repeat split; discriminate.
+  - eexists _, _. split; [vm_compute; reflexivity|]. split; [vm_compute; reflexivity|]. split; [vm_compute; reflexivity|]. split.
+    + intros Qp rp E. rewrite E. unfold ex_loss, ex_solve. rewrite Qred_correct.
+      assert (E1 : 1 + (/ (2 * Qp / (2 + 3)) - 1) == / (2 * Qp / (2 + 3))) by ring. rewrite E1, Qinv_involutive. lra.
+    + vm_compute. split; discriminate.
+Qed.
+
 (* non-vacuity: g y = |y - 3| is unimodal with minimiser 3; with K lam = 10 the loop returns r = -1, Q = 7, cost 22/7,
    strictly better than its neighbours Q = 6 and Q = 8; the termination hypothesis holds with B = 11 *)
 Example C14_nonvacuous :
@@ -208,6 +238,16 @@ Proof.
   - intros y Hy. assert (E : rq_cost_def (fun y : Z => inject_Z (Z.abs (y - 3))) 10 1 (3 - 1) 1 == inject_Z 10) by (vm_compute; reflexivity).
     rewrite E. rewrite <- Zlt_Qlt. lia.
 Qed.
+
+(* non-degenerate witness of the Poisson hypotheses (3): demand uniform on 0..3, h = 1, p = 4 (vacuity audit; Alg/RQ_witnesses.v): identity,
+   monotone cdf, zero below the support, find_S = 3, and the exact algorithm returns a pair with Q > 1; and the loss-function solver
+   hypothesis in its former global form is met by NO non-negative loss function *)
+Example C14_nonvacuous_identity_nondegenerate :
+  ((forall y, wg (y + 1)%Z - wg y == (1 + 4) * wF y - 4) /\ (forall y, wF y <= wF (y + 1)%Z) /\ (forall y, (y < 0)%Z -> wF y == 0) /\
+   find_S wF (4 / (4 + 1)) 10 0%Z = Some 3%Z /\
+   exists r n c, r_q_poisson_exact wF wg 1 4 5 2 1 30 = Ok (r, n, c) /\ (1 < n)%nat) /\
+  (forall (n1 : Q -> Q) (solve : Q -> Q -> Q) (eps : Q), (forall r, 0 <= n1 r) -> ~ (forall rhs x0, - eps <= n1 (solve rhs x0) - rhs <= eps)).
+Proof. split; [exact C14_poisson_exact_witness|exact lossfn_solver_hyp_unsat_for_nonneg_n1]. Qed.
 
 (* non-vacuity of the Poisson hypotheses (3): a degenerate demand (cdf = step at 0), h = 2, p = 3 *)
 Example C14_nonvacuous_identity :
@@ -339,6 +379,9 @@ Proof. exact (r_for_q_gen_VErr_iff o fuel Qn h p lam sd L tol). Qed.
    gn := the translated newsvendor_normal_cost on rationals and s := the translated newsvendor_normal level.  All theorems of this
    file about [r_for_q gn Qn tol fuel s] (C14_r_for_q_exit, _bracket, _minimises_*, _terminates, _total) thereby speak about the
    term generated from the source. *)
+(* NOTE on satisfiability (vacuity audit): the hypothesis that the real newsvendor cost is RATIONAL at every rational argument (gn) holds for
+   oracles whose values are rational (tabulated or floating-point-valued norm functions), not for the exact Gaussian ((h+p) sigma / sqrt(2 pi) is
+   irrational at x = mu); for the exact Gaussian the statements that hold are the direct ones at R above (C14_gen_r_for_q_exit, _ValueError_iff). *)
 Theorem C14_gen_r_for_q_refines_model (o : Oracles R) (gn : Q -> Q) (Qn tol s : Q) (h p lam sd L : R) (fuel : nat) :
   0 < Q2R Qn -> 0 <= lam -> 0 <= sd -> 0 <= L ->
   (exists c : R, newsvendor_normal (ROps o) h p (lam * L) (sd * sqrt L) 0 None = Some (Q2R s, c)) ->
